@@ -21,8 +21,9 @@ SweepVerdict(c) ==
         def == SweepDefined(L, L.kind)
     IN  V(o.defined = def, "conf.defined")
    \cup V(o.integrate = Integrate(L, L.U), "conf.integrate")
-   \cup V(o.res = ResidualNorms(L, L.u0, L.U, L.tau), "conf.residual")
-   \cup V(o.uend = EndPoint(L, L.u0, L.U, L.tau), "conf.endpoint")
+   \cup V(L.kind = "rk" \/ o.res = ResidualNorms(L, L.u0, L.U, L.tau), "conf.residual")
+   \cup V(L.kind = "rk" \/ o.uend = EndPoint(L, L.u0, L.U, L.tau), "conf.endpoint")
+   \cup V(L.kind # "rk" \/ ~ (def /\ o.defined) \/ o.uend_after = EndPointRK(L, L.u0, o.sweep), "conf.endpoint_rk")
    \cup V(o.rel_ok, "conf.residual_rel")
    \cup (IF def /\ o.defined
          THEN   V(o.sweep = Sweep(L, L.kind, L.u0, L.U, L.tau), "conf.sweep")
